@@ -18,7 +18,8 @@ EXTENDS Integers, Sequences, FiniteSets, TLC
 CONSTANTS Procs, NOps, Alphabet, InitTabs, ParentTab, Variant
 
 Names == {"x", "y", "p"}
-E == INSTANCE AnkoEnv WITH Names <- Names, Dotted <- {}, ExtV <- [n \in {} |-> 0], ExtT <- [n \in {} |-> 0], BuiltinT <- [n \in {} |-> 0]
+\* the shared scope has an external lookup that knows the name "ext" (consulted after the scope's own table, outside its lock)
+E == INSTANCE AnkoEnv WITH Names <- Names \cup {"ext"}, Dotted <- {}, ExtV <- [n \in {"ext"} |-> 77], ExtT <- [n \in {} |-> 0], BuiltinT <- [n \in {} |-> 0]
 
 VARIABLES tab,    \* [{"c","p"} -> value table]
           rd,     \* [{"c","p"} -> [Procs -> Nat]]   read holds
@@ -77,6 +78,7 @@ DoAct(p, a) ==
                                                                          ELSE <<RU("c"), LQ("p"), LA("p"), Act("set_p")>>]
     [] a = "get_c"    -> /\ UNCHANGED tab /\ bad' = (bad \/ ~HoldsR(p, "c"))
                          /\ IF E!Has(c, o.n) THEN res' = Append1(p, E!ValR(c[o.n])) /\ code' = [code EXCEPT ![p] = <<RU("c")>>]
+                                             ELSE IF o.n = "ext" THEN res' = Append1(p, E!ValR(77)) /\ code' = [code EXCEPT ![p] = <<RU("c")>>]     \* (answered by the external lookup once the lock is released; it touches no table)
                                              ELSE UNCHANGED res /\ code' = [code EXCEPT ![p] = <<RU("c"), RL("p"), Act("get_p"), RU("p")>>]
     [] a = "get_p"    -> /\ UNCHANGED tab /\ bad' = (bad \/ ~HoldsR(p, "p")) /\ code' = [code EXCEPT ![p] = Rest(p)]
                          /\ res' = Append1(p, IF E!Has(par, o.n) THEN E!ValR(par[o.n]) ELSE E!Err)
@@ -138,7 +140,7 @@ Spec == Init /\ [][Next]_vars
 
 ----------------------------------------------------------------------------
 (* sequential reference: AnkoEnv with handle 1 = parent, handle 2 = child; a Copy is reported as its table *)
-SeqInit(t0) == <<[E!EmptyScope(0) EXCEPT !.v = ParentTab], [E!EmptyScope(1) EXCEPT !.v = t0]>>
+SeqInit(t0) == <<[E!EmptyScope(0) EXCEPT !.v = ParentTab], [E!EmptyScope(1) EXCEPT !.v = t0, !.x = TRUE]>>
 SeqApply(sc, o) ==
   LET c == E!Call(o.op, 2, o.n, o.v, <<>>)  r == E!Apply(sc, c) IN
   IF o.op = "Copy" THEN [sc |-> r.sc, res |-> E!SymsR(Enc(r.sc[r.res.i].v))]
